@@ -166,7 +166,7 @@ class Sim:
             sim.emit(f"status {s.name}")
             if sim.status_mode == "raise":
                 raise RuntimeError("status callback failed")
-            if sim.status_mode == "slow":
+            if sim.status_mode == "slow" or (sim.status_mode == "slow-connected" and s.name == "CONNECTED"):
                 await sim._real_sleep(0.05)
             if sim.status_mode == "close-on-disconnect" and s.name == "DISCONNECTED":
                 await c.close()          # the user gives up on the first fault: close() from inside the status callback
